@@ -103,7 +103,8 @@ func (m *vfModel) credsOf(ctx *vfReqCtx) []vfCred {
 		}
 	}
 	if ctx.req.Cert != nil && !ctx.req.NoTLS {
-		if a := m.artByCert(ctx.req.Cert); a != nil && a.Forged == "" {
+		if a := m.artByCert(ctx.req.Cert); a != nil && a.Forged == "" && !containsStr(m.w.cfg.DenyKeys, a.KeyName) {
+			// (a certificate over a deny-listed key is no credential)
 			p := AuthTypeKeymasterX509
 			if a.Kind == "ipcert" && vfPeerInNets(ctx.req.Peer, a.Nets) {
 				p |= AuthTypeIPCertificate
@@ -194,7 +195,7 @@ func (m *vfModel) observeCertgen(ctx *vfReqCtx, in *vfIntent, resp *vfResp) {
 		}
 		// "A user who did complete an acceptable factor is served": only in the
 		// clean case (one cookie credential, valid request, no fault in flight).
-		if justified && w.cleanWindow() && len(creds) == 1 && creds[0].Kind == "cookie" && creds[0].Certain && cr.Method == "POST" &&
+		if justified && w.cleanWindow() && len(creds) == 1 && creds[0].Kind == "cookie" && creds[0].Certain && cr.Method == "POST" && ctx.req.Cert == nil && len(ctx.req.PreCookies) == 0 &&
 			in.Why == nil && vfServedFactors(creds[0].Proven, listed) {
 			w.violate("C01", "not-served", fmt.Sprintf("not-served:%d", resp.Code),
 				fmt.Sprintf("user %s with proven %s (listed %v) was refused with %d: %s", cr.URLUser, vfLevelString(creds[0].Proven), w.cfg.CertBackends, resp.Code, vfShort(strings.TrimSpace(string(resp.Body)))))
